@@ -98,7 +98,7 @@ Lemma mark_moved_le B s b i blk c :
   get_blk s b = Some blk -> b_live blk = true -> nth_error (b_cells blk) i = Some c ->
   exists s', mark_moved cfg b i s = Ok tt s' /\ st_le B s s'.
 Proof.
-  intros Hb Hl Hc. unfold mark_moved. destruct (c_trivial cfg) eqn:Ht.
+  intros Hb Hl Hc. unfold mark_moved. destruct (c_quiet cfg) eqn:Ht.
   - exists s. split; [reflexivity|apply st_le_refl].
   - unfold bind. rewrite (get_cell_ok _ _ _ _ _ Hb Hl Hc).
     destruct c as [|v|v].
@@ -148,9 +148,9 @@ Qed.
 Lemma tick_elem_spec w (P : state -> Prop) :
   (forall s f, P s -> P (set_fault f s)) ->
   (forall s e, P s -> P (emit e s)) ->
-  triple P (tick_elem cfg w) (fun _ s' => P s') (fun s' => c_trivial cfg = false /\ P s' /\ In (EvThrow w) (s_ledger s')).
+  triple P (tick_elem cfg w) (fun _ s' => P s') (fun s' => c_quiet cfg = false /\ P s' /\ In (EvThrow w) (s_ledger s')).
 Proof.
-  intros Hf He. unfold tick_elem. destruct (c_trivial cfg) eqn:Ht.
+  intros Hf He. unfold tick_elem. destruct (c_quiet cfg) eqn:Ht.
   - intros s HP. exact HP.
   - eapply triple_conseq; [apply (tick_spec w P Hf He)| | |]; auto.
 
@@ -258,7 +258,7 @@ Proof.
   - intros s (L & Sh & _). cbn. rewrite Nat.add_0_r. auto.
   - cbn [construct_loop length] in *.
     eapply triple_bind with (Q := fun _ s => st_le B s0 s /\ shape s b i N /\ Forall (src_ok s0 B) (x :: srcs)).
-    { eapply triple_on_throw with (QT' := fun s => c_trivial cfg = false /\ (st_le B s0 s /\ shape s b i N /\ Forall (src_ok s0 B) (x :: srcs))
+    { eapply triple_on_throw with (QT' := fun s => c_quiet cfg = false /\ (st_le B s0 s /\ shape s b i N /\ Forall (src_ok s0 B) (x :: srcs))
                                                  /\ In (EvThrow w) (s_ledger s)).
       - apply tick_elem_spec.
         + intros s f (L & Sh & F). split; [apply st_le_set_fault; auto|split; auto].
@@ -281,7 +281,7 @@ Proof.
       - inv E2. exact S1.
       - destruct H1 as [Hn _]. eapply shape_frame; [|exact S1].
         (* mark_moved touches block b' <> b only *)
-        unfold mark_moved in E2. destruct (c_trivial cfg); [inv E2; reflexivity|].
+        unfold mark_moved in E2. destruct (c_quiet cfg); [inv E2; reflexivity|].
         unfold bind in E2. destruct (get_cell b' i' s1) as [c sx|sx|e] eqn:G; try discriminate.
         assert (sx = s1).
         { unfold get_cell, bind, get_block in G. destruct (nth_error (s_blocks s1) b') as [bk|]; try discriminate.
